@@ -31,6 +31,7 @@ from vlib import diffexec
 CORE_FLAGS = {
     'types': False, 'nested_types': False, 'interfaces': False, 'recursion': False,
     'renamed_imports': False, 'unqualified_imports': False, 'dup_local_names': False, 'unused_imports': False,
+    'module_level_imports': False,
 }
 
 SHORT = {
@@ -394,6 +395,7 @@ def choose_pipeline(rng, P, exp, meta, shape, allow=()):
     not in ``allow`` are not chosen.  Returns (spec, info) with info = {'dup', 'rem', 'subgraph', 'traits'}.
     """
     allow = set(allow)
+    byq = {p.qname: p for p in P.procs}
     cands = kernel_candidates(P, exp, meta)
     spec = []
     info = {'dup': None, 'rem': None, 'subgraph': False, 'traits': set()}
@@ -407,11 +409,17 @@ def choose_pipeline(rng, P, exp, meta, shape, allow=()):
                 tr.add('non_procedure_in_subgraph')
             if sub and any(g in meta['seeds'] for g in group):
                 continue
+            cloned = [s_ for g in group if g in byq for s_ in (P.modules[byq[g].module].procs if byq[g].module else [byq[g]])]
+            if shape in ('dupdep', 'all') and any(s_.intf_blocks for s_ in cloned):
+                # the clone shares the interface bodies with the original: a later renaming hits them twice
+                tr.add('dup_intf_then_rename')
             if tr - {'module_with_siblings'} <= allow:
                 ok.append((q, tr))
         if ok:
             q, tr = rng.choice(ok)
             info.update({'dup': q, 'subgraph': sub})
+            info['dup_group'] = [q] + ([g for g in sorted(descendants(exp, q)) if exp.nodes.get(g) == 'ProcedureItem']
+                                       if sub else [])
             info['traits'] |= tr & allow
             spec.append(('dup', {'duplicate_kernels': [q.split('#')[1]], 'duplicate_suffix': rng.choice(['_dupl', '_d2']),
                                  'duplicate_module_suffix': rng.choice([None, '_dmod']), 'duplicate_subgraph': sub}))
@@ -437,7 +445,13 @@ def choose_pipeline(rng, P, exp, meta, shape, allow=()):
     if rng.random() < 0.25:
         spec.reverse()
     if shape in ('wrapdep', 'dupdep', 'all') and (shape == 'wrapdep' or rng.random() < 0.5):
-        spec.append(('wrap', {'module_suffix': '_mod'}))
+        # the call DuplicateKernel adds for a free routine comes without interface block: ModuleWrapTransformation
+        # cannot redirect it to the wrapper module (gated)
+        free_dup = any(g.startswith('#') for g in info.get('dup_group', []))
+        if not free_dup or 'dup_free_then_wrap' in allow:
+            spec.append(('wrap', {'module_suffix': '_mod'}))
+            if free_dup:
+                info['traits'].add('dup_free_then_wrap')
     if shape in ('dep', 'wrapdep', 'dupdep', 'all'):
         spec.append(('dep', {'suffix': rng.choice(['_loki', '_lk']), 'module_suffix': rng.choice(['_mod', '_mod', None])}))
     return spec, info
@@ -634,9 +648,9 @@ def build_and_run(workdir, required, driver, optional=None):
     while True:
         defs_mod, defs_proc = set(), set()
         for t in files.values():
-            mods, _, procs = scan_units(t)
+            mods, _, _ = scan_units(t)
             defs_mod |= set(mods)
-            defs_proc |= set(procs)
+            defs_proc |= {m.lower() for m in _TOP_PROC.findall(t)}   # external procedures only (column 0)
         need_mod, need_proc = set(), set()
         for t in list(files.values()) + [driver]:
             _, uses, _ = scan_units(t)
@@ -717,3 +731,131 @@ def project_texts(P, speller=None):
     sp = speller or L.Speller()
     return {relpath: '\n'.join(P._emit_unit(kind, u, sp) for kind, u in units) + '\n'   # pylint: disable=protected-access
             for relpath, units in P.files}
+
+
+# ---------------------------------------------------------------------------------------------
+# reference model of the item names (ground truth with the same renames applied)
+# ---------------------------------------------------------------------------------------------
+
+def derive_module_name(modname, suffix, module_suffix):
+    """documented rule of DependencyTransformation: canonical ``<base><suffix><module_suffix>``"""
+    if module_suffix and modname.endswith(module_suffix):
+        modname = modname[:-len(module_suffix)]
+    if modname.endswith(suffix):
+        modname = modname[:-len(suffix)]
+    return f'{modname}{suffix}{module_suffix or ""}'
+
+
+class RenameModel:
+    """
+    Procedure items of the scheduler graph under the documented effects of the four transformations.
+
+    ``procs``: {current item name: {'scope', 'local', 'role', 'origin' (qualified name of the generated procedure the
+    item was derived from), 'dup' (bool)}};  ``edges``: caller -> callee over current names; ``other``: non-procedure
+    nodes (header modules), never renamed.  Only the clean domain is modelled (see ``choose_pipeline``).
+    """
+
+    def __init__(self, exp, meta):
+        self.procs = {}
+        self.other = {n: k for n, k in exp.nodes.items() if k != 'ProcedureItem'}
+        self.edges = set(exp.edges)
+        self.seeds = list(meta['seeds'])
+        drivers = set(meta['driver_seeds'])
+        for n, k in exp.nodes.items():
+            if k == 'ProcedureItem':
+                scope, local = n.split('#')
+                self.procs[n] = {'scope': scope, 'local': local, 'role': 'driver' if n in drivers else 'kernel',
+                                 'origin': n, 'dup': False}
+        self.log = []
+
+    # -- helpers ---------------------------------------------------------------------------------
+    def reachable(self):
+        seen, todo = set(), [s for s in self.seeds if s in self.procs]
+        while todo:
+            a = todo.pop()
+            if a in seen:
+                continue
+            seen.add(a)
+            todo += [y for x, y in self.edges if x == a]
+        return seen
+
+    def prune(self):
+        live = self.reachable()
+        self.procs = {n: v for n, v in self.procs.items() if n in live}
+        self.other = {n: k for n, k in self.other.items() if n in live}
+        self.edges = {(a, b) for a, b in self.edges if a in live and b in live}
+
+    def _rename(self, old, scope, local):
+        new = f'{scope}#{local}'
+        if new == old:
+            return
+        v = self.procs.pop(old)
+        v['scope'], v['local'] = scope, local
+        self.procs[new] = v
+        self.edges = {(new if a == old else a, new if b == old else b) for a, b in self.edges}
+        self.seeds = [new if s == old else s for s in self.seeds]
+
+    def below(self, name):
+        seen, todo = set(), [name]
+        while todo:
+            a = todo.pop()
+            for x, y in self.edges:
+                if x == a and y not in seen:
+                    seen.add(y)
+                    todo.append(y)
+        return seen
+
+    def by_local(self, local):
+        return [n for n, v in self.procs.items() if v['local'] == local]
+
+    # -- transformations -------------------------------------------------------------------------
+    def apply(self, name, opts):
+        getattr(self, f'_{name}')(opts)
+        self.log.append(name)
+
+    def _dup(self, o):
+        suffix = o['duplicate_suffix']
+        msuffix = o.get('duplicate_module_suffix') or suffix
+        new_edges = set()
+        for k in o['duplicate_kernels']:
+            for n in self.by_local(k):
+                if not any(b == n for a, b in self.edges):
+                    continue      # no caller in the graph: nothing is duplicated
+                group = [n] + ([d for d in self.below(n) if d in self.procs] if o.get('duplicate_subgraph') else [])
+                new = {}
+                for g in group:
+                    v = self.procs[g]
+                    sc = f"{v['scope']}{msuffix}" if v['scope'] else ''
+                    new[g] = (f"{sc}#{v['local']}{suffix}", {'scope': sc, 'local': v['local'] + suffix, 'role': 'kernel',
+                                                          'origin': v['origin'], 'dup': True})
+                for g, (nn, v) in new.items():
+                    self.procs[nn] = v
+                    for a, b in self.edges:
+                        if a == g:
+                            new_edges.add((nn, new[b][0] if b in new else b))
+                for a, b in self.edges:
+                    if b == n:
+                        new_edges.add((a, new[n][0]))
+        self.edges |= new_edges
+
+    def _rem(self, o):
+        ks = set(o['remove_kernels'])
+        gone = {n for n, v in self.procs.items() if v['local'] in ks}
+        self.edges = {(a, b) for a, b in self.edges if b not in gone}
+        self.prune()
+
+    def _wrap(self, o):
+        for n in list(self.procs):
+            v = self.procs[n]
+            if v['role'] == 'kernel' and not v['scope']:
+                self._rename(n, f"{v['local']}{o['module_suffix']}", v['local'])
+
+    def _dep(self, o):
+        suffix, msuffix = o['suffix'], o.get('module_suffix')
+        for n in list(self.procs):
+            v = self.procs[n]
+            if v['role'] != 'kernel':
+                continue
+            local = v['local'] if v['local'].endswith(suffix) else v['local'] + suffix
+            scope = derive_module_name(v['scope'], suffix, msuffix) if v['scope'] else ''
+            self._rename(n, scope, local)
